@@ -457,6 +457,15 @@ pub fn c08(r: &mut Rng, t: u32, n: usize) -> Vec<Value> {
                 let i = if ty == "i128" && r.bool() && f > 0 { neg1!(r, (MAXC / p10(f as u32)).saturating_add(r.range(-1, 1) as i128)) } else if r.below(3) == 0 && f > 0 && c % p10(f as u32) == 0 { let q = c / p10(f as u32); int_fold(q, ty) } else { int_value(r, ty) };
                 if r.bool() { v.push(json!({"ev": "cmp", "t": t, "op": op, "x": dj(c, f), "y": dj(i, 0), "xt": "dec", "yt": ty})); } else { v.push(json!({"ev": "cmp", "t": t, "op": op, "x": dj(i, 0), "y": dj(c, f), "xt": ty, "yt": "dec"})); }
             }
+            7 => {
+                // a Decimal that is exactly an integer at (or just below) the bound where scaling the integer overflows
+                let f = 1 + r.below(18) as u32;
+                let i = neg1!(r, MAXC / p10(f) - r.below(2) as i128);
+                let c = i * p10(f);
+                let op = *r.pick(&iops);
+                let ty = "i128";
+                if r.bool() { v.push(json!({"ev": "cmp", "t": t, "op": op, "x": dj(c, f as u8), "y": dj(i, 0), "xt": "dec", "yt": ty})); } else { v.push(json!({"ev": "cmp", "t": t, "op": op, "x": dj(i, 0), "y": dj(c, f as u8), "xt": ty, "yt": "dec"})); }
+            }
             6 => {
                 let (c, f) = decimal(r);
                 v.push(json!({"ev": "bs", "t": t, "x": dj(c, f)}));
@@ -602,7 +611,13 @@ pub fn c06(r: &mut Rng, t: u32, n: usize) -> Vec<Value> {
                 let foreign: &[u8] = b"/:@pP`. eE+-_\x7f!";
                 b[k] = *r.pick(foreign);
                 if r.below(4) == 0 { b.insert(r.below(l as u64) as usize, b'.'); }
-                String::from_utf8(b).unwrap()
+                let mut s = String::from_utf8(b).unwrap();
+                if r.below(3) == 0 {
+                    // a multi-byte character instead (all UTF-8 lead/continuation byte ranges, digits of other scripts)
+                    let ch = *r.pick(&['\u{bd}', '\u{be}', '\u{bf}', '\u{fc}', '\u{ff}', '\u{b9}', '\u{e9}', '\u{b2}', '\u{663}', '\u{ff13}', '\u{feff}', '\u{fffd}', '\u{7ff}', '\u{800}', '\u{10ffff}', '\u{1d7d8}']);
+                    s.replace_range(k..k + 1, &ch.to_string());
+                }
+                s
             }
             8 if r.bool() => {
                 // long fraction compensated by a long exponent: value = digits * 10^(e - z - len)
@@ -702,7 +717,7 @@ pub fn c12(r: &mut Rng, t: u32, n: usize) -> Vec<Value> {
                     match 5u128.checked_pow(k).and_then(|p| p.checked_mul(odd)) { Some(x) if x <= MAXC as u128 => (x as i128, k as u8), _ => continue }
                 };
                 // optionally more digits, then +-1 unit in the last place
-                let extra = r.below((19 - f as u64).min(6)) as u32;
+                let extra = if r.bool() { r.below((19 - f as u64).min(6)) as u32 } else { 18 - f as u32 - r.below((19 - f as u64).min(3)) as u32 };   // up to 18 digits: offsets far below an f64 ulp
                 let (c, f) = match c.checked_mul(p10(extra)) { Some(c2) => (c2, f + extra as u8), None => (c, f) };
                 (neg1!(r, c.saturating_add(r.range(-1, 1) as i128)), f)
             }
@@ -741,7 +756,7 @@ pub fn c13(r: &mut Rng, t: u32, n: usize) -> Vec<Value> {
         let (fb, ebits, bias): (u32, u32, i64) = if w == 64 { (52, 11, 1023) } else { (23, 8, 127) };
         let emax = (1u64 << ebits) - 1;
         let fmask: u64 = (1u64 << fb) - 1;
-        let (bexp, frac): (u64, u64) = match r.below(12) {
+        let (bexp, frac): (u64, u64) = match r.below(14) {
             0 => (emax, if r.bool() { 0 } else { r.next() & fmask }),               // inf / NaN
             1 => (0, if r.bool() { 0 } else { r.next() & fmask }),                  // zero / subnormal
             2 | 3 => {
@@ -753,6 +768,16 @@ pub fn c13(r: &mut Rng, t: u32, n: usize) -> Vec<Value> {
                 let e = l - k;
                 let frac = if l as u32 <= fb { (m << (fb - l as u32)) & fmask } else { (m >> (l as u32 - fb)) & fmask };
                 (((e + bias) as u64).min(emax - 1), frac)
+            }
+            10 | 11 if w == 64 || r.bool() => {
+                // the float nearest to a decimal tie (k + 1/2) * 10^-j (j = 18: the rounding position; also 17, 19) and its neighbours
+                let k = match r.below(3) { 0 => r.below(10), 1 => r.below(100000), _ => r.next() >> 20 };
+                let j = *r.pick(&[18i32, 18, 18, 17, 19]);
+                let val = (k as f64 + 0.5) * 10f64.powi(-j);
+                let txt = format!("{}5e-{}", k, j + 1);
+                let (bits, fb2) = if w == 64 { (txt.parse::<f64>().unwrap_or(val).to_bits(), 52) } else { ((txt.parse::<f32>().unwrap_or(val as f32).to_bits()) as u64, 23) };
+                let bits = (bits as i64 + r.range(-1, 1)) as u64;
+                ((bits >> fb2) & emax, bits & fmask)
             }
             4 => ((bias + 126 + r.below(4) as i64) as u64, r.next() & fmask),       // 2^127 boundary
             5 => ((bias + 127) as u64 - r.below(2), if r.bool() { 0 } else { fmask }),
